@@ -54,6 +54,18 @@ ADDED = {
     "w4_C14": "alt-loc fragment and disulfide fragment under titrate-only lists",
     "w4_C15": "a coupled partner that is also penalised by covalent coupling",
     "w4_C16": "buried-fraction bound also on the reported average",
+    "w5_C02": "chain selections the writer has to render (blank identifier, a chain named twice, reverse order)",
+    "w5_C03": "one path reused for successive contents of equal size with a preserved time stamp",
+    "w5_C04": "a covalently coupled chain start scored with the optional parameter settings (common charge centre, sharing)",
+    "w5_C05": "unions of two covalently coupled systems under the optional parameter settings",
+    "w5_C06": "relabellings under a chain selection; chain map that changes case only",
+    "w5_C07": "three alternate locations (A/B and A/B/C) so that completion has a choice of source",
+    "w5_C11": "a two-letter element (selenium) in the placement alphabet and the clouds",
+    "w5_C15": "logging-verbosity options as further 'analysis on, nothing displayed' variants",
+    "w5_C16": "C16_CoulombSource: a Coulomb determinant comes from a titrating group or a configured ion",
+    "w5_C17": "Trace_HydSet: the complete hydrogen set, default and with the program's own hydrogens kept (-k)",
+    "w5_C18": "numeric entries in interaction-matrix rows (stored as numbers in both orientations)",
+    "w5_C19": "serials that restart in every MODEL / are all equal, on inputs that need completion",
 }
 ROUND = {"C": 1, "w2": 2, "w3": 3, "w4": 4, "w5": 5}
 
